@@ -2,7 +2,8 @@
 """Regenerates MANIFEST.json from the table below (claimed checks) - everything else is listed not_applicable."""
 import json, os
 V = os.path.dirname(os.path.dirname(os.path.abspath(__file__)))
-TECH = 'bounded symbolic execution of the rustc MIR of the real functions (mirsym) + z3; counterexamples replayed natively'
+TECH = ('bounded symbolic execution of the rustc MIR of the real functions (mirsym) + z3: every feasible path within the bounds, the property decided by the solver; '
+        'counterexamples replayed natively; one solver-chosen input per path class cross-validated on the native build')
 NOTE = ('trusted: rustc MIR dump, the interpreter core, the library models listed in the evidence (validated by native replay / '
         'concrete differential runs), z3; bounds as stated in the evidence file; nothing outside the bounds is claimed')
 CLAIMED = {
@@ -24,7 +25,7 @@ CLAIMED = {
  'C20': ('every tag and subsystem variant against Other(symbolic name): ==, cmp, hash feed; Tag::try_from on all strings within the bounds and on every known name in every letter case; subsystem names through from_frame/as_str', '4 C20'),
  'C11': ('filter trees of every shape within the bounds, rendered inside a real find command and decoded by ports of MPD\'s tokenizer and filter parser; equality with the mirror tree decided by z3 on every path', '4 C11'),
  'C19': ('frames with symbolic keys under symbolic operation sequences and iteration patterns, responses under symbolic next/next_back/nth patterns, each observation compared with a list model on every path', '4 C19'),
- 'C12': ('every typed response conversion and result accessor on frames with symbolic field names, order, presence and values (numbers of any magnitude, any f64); a feasible path reaching a panic is the counterexample', '4 C12'),
+ 'C12': ('every typed response conversion and result accessor on frames with symbolic field names, order, presence and values (numbers of any magnitude, any f64); with and without the chrono feature; a feasible path reaching a panic is the counterexample', '4 C12'),
  'C14': ('abstract song listings under symbolic entry/attribute choices encoded into frames and decoded by the real listing decoders; the result is compared with a reference decoder on every path; plus a listing decoded end to end as second/third reply of a real connection that interned the same field names in other letter cases', '4 C14'),
  'C16': ('abstract status/stats/count/list/playlist/sticker/channel/tagtype/update/replay-gain replies under symbolic presence, domains and order; every member compared with the value sent on every path', '4 C16'),
  'C06': ('every feasible path of Command::build/add_argument/escape_argument/CommandList::render for all argument byte vectors within '
